@@ -161,7 +161,10 @@ let abstract_with (known : string list option) (max : Model.z) (evs : string lis
         let k = sample_kv (String.concat "/" rest) in
         let g x = try List.assoc x k with Not_found -> "" in
         let zi x = z_to_coq (ZZ.of_string (if g x = "" then "0" else g x)) in
-        Some (ASample (zi "pending", zi "goroutines", g "done" = "1", g "connected" = "1", g "err" = "nil"))
+        (* the goroutine count is a difference to a baseline taken when the case started; a goroutine of an EARLIER case that
+           was still exiting then makes it negative: that is measurement noise, not a leak *)
+        let gz = let z = ZZ.of_string (if g "goroutines" = "" then "0" else g "goroutines") in z_to_coq (if ZZ.lt z ZZ.zero then ZZ.zero else z) in
+        Some (ASample (zi "pending", gz, g "done" = "1", g "connected" = "1", g "err" = "nil"))
     | _ -> None) e with Some x -> [ x ] | None -> [])) evs
 
 let abstract (max : Model.z) (evs : string list) : aev list = abstract_with None max evs
